@@ -343,6 +343,12 @@ class Normalizer:
                 and f.attr not in self._all_pinned_method_names() \
                 and all(isinstance(x, (ast.Name, ast.Attribute, ast.Load)) for x in ast.walk(f.value)):
             return self.foreign[f.attr], f.value
+        # a new method of the collection class (containers.ItemsList), called as ``<reference>._sheets.<name>(...)`` or
+        # ``<reference>._tables.<name>(...)`` (the two attributes document.py binds to an ItemsList)
+        if isinstance(f, ast.Attribute) and f.attr in ITEMSLIST_METHODS and isinstance(f.value, ast.Attribute) and f.value.attr in ("_sheets", "_tables") \
+                and f.attr not in self._all_pinned_method_names() \
+                and all(isinstance(x, (ast.Name, ast.Attribute, ast.Load)) for x in ast.walk(f.value)):
+            return ITEMSLIST_METHODS[f.attr], f.value
         # a new method of another class of this module, called on a plain reference (``self._x[k].helper(...)``): bound
         # by its name when that name is defined once in the module and exists nowhere in the pinned vocabulary
         if isinstance(f, ast.Attribute) and not (isinstance(f.value, ast.Name) and f.value.id in ("self", "cls")):
@@ -1505,7 +1511,7 @@ class Normalizer:
                 self._unroll_table_loops(n, set(self.pinned_funcs.get(_qual(n, self.par), [])))
                 if self._sink_generator_loops(n):
                     self._renumber(n)
-            if self.helpers or self.foreign:
+            if self.helpers or self.foreign or ITEMSLIST_METHODS:
                 for _round in range(3):
                     taken = _local_names(n)
                     n.body = self._inline_stmt_calls(n.body, cls_name, taken)
@@ -1636,6 +1642,9 @@ def new_module_constants(tree, rel, base_env):
 
 
 _NO = object()
+
+
+ITEMSLIST_METHODS: dict = {}
 
 
 def new_methods(tree, rel, cls_name):
